@@ -102,3 +102,9 @@ claim("C18",
   "Decides structural necessary conditions of C18 for every node pool: a pod is evicted only when the continue-condition evaluated in the same iteration holds and the pod passes the filters, the condition is re-evaluated and the running estimates decremented between evictions; the balance call is unreachable when no node is overloaded / confirmed anomalous / underused, too few or all are underused; sources are exactly the anomaly-filtered overloaded classes and destinations the underused classes; the continue-condition is true only for a still overutilized node with positive headroom. It does not decide threshold arithmetic, classification or anomaly counters over rounds.",
   "trusts go/ssa and the rule tables in internal/rules/c18.go",
   "DESIGN.md §4 C18")
+
+claim("C19",
+  "custom SSA/types rules: codec pairing (annotation key -> Marshal argument type / Unmarshal target type) and structural round-trip induction over go/types, call-graph reachability writer->reader per plugin, field-set sibling comparison of allocate / persist / restore literals, both-empty early-return rule, registration-order dominance, must-reach rule for reservation assignments",
+  "Decides structural necessary conditions of C19 for every crash point: each persisted allocation annotation is written and read with one key and one type that survives JSON encoding; what pre-bind persists is read on the same plugin's informer path; the rebuilt allocation record sets every field the allocating path sets and reads every persisted field; a persisted allocation is dropped only when completely empty; owners (reservations, quotas) are replayed before pods and a pod's reservation assignment is always replayed into the ledger. It does not decide equality of the live and rebuilt caches over histories.",
+  "trusts go/types, encoding/json semantics for the accepted type shapes, and the allow-list of custom marshalers (Quantity, Time, ...); node-level annotations are outside the property",
+  "DESIGN.md §4 C19")
